@@ -109,9 +109,13 @@ def build_store(r: Any, traces: list[tuple[str, str, tuple[list[int | None], tup
     return events
 
 
-def oracle(traces: list[Any], buffer: int, events: list[dict[str, Any]]) -> dict[str, list[set[str]]] | None:
-    mn = min(e["start"] for e in events)
-    mx = max(e["end"] for e in events)
+def oracle(traces: list[Any], buffer: int, events: list[dict[str, Any]],
+           window_events: list[dict[str, Any]] | None = None) -> dict[str, list[set[str]]] | None:
+    # the window is that of the run which computes the hashes: the earliest start and the latest end of what THAT run
+    # ingested (a second delivery sees only its own spans); the traces considered are those of the whole store
+    we = window_events if window_events else events
+    mn = min(e["start"] for e in we)
+    mx = max(e["end"] for e in we)
     lo, hi = mn + buffer * MIN, mx - buffer * MIN
     if lo >= hi:
         return None
@@ -212,7 +216,10 @@ def gen_two_deliveries(ctx: Ctx, small: list[Any]) -> dict[str, Any]:
     batch = r.choice([1, 2, 3, 1000])
     ctx.tick("two_deliveries")
     ctx.tick("late_spans", len(late))
+    if not second:
+        second = [first.pop()] if len(first) > 1 else list(first)
     return {"batch": batch, "buffer": 0, "events": events, "traces": traces, "file_db": True, "two": True,
+            "second": second,
             "script": [["ingest", first], ["unique"], ["newrun"], ["ingest", second], ["unique"]]}
 
 
@@ -231,7 +238,7 @@ def run_cases(ctx: Ctx, cases: list[dict[str, Any]]) -> None:
                 ires = sl.run_impl(case["script"], case["batch"], case["buffer"], True)
             except Exception as ex:  # noqa: BLE001
                 ires = [f"{type(ex).__name__}: {str(ex)[:200]}"] * 5
-            want = oracle(case["traces"], case["buffer"], case["events"])
+            want = oracle(case["traces"], case["buffer"], case["events"], case["second"])
             ctx.case({"e": case["script"], "b": case["batch"]}, True,
                      sample={"two_deliveries": True, "batch": case["batch"], "selected": ires[4]}
                      if ctx.cov["evaluations"] % 67 == 0 else None)
@@ -324,6 +331,14 @@ def run(ctx: Ctx) -> None:
 def replay(data: dict[str, Any]) -> int:
     case = data["input"]
     traces = [(n, j, (ps, tuple(ls)), tuple(iv)) for n, j, (ps, ls), iv in case["traces"]]
+    if any(step[0] == "newrun" for step in case["script"]):
+        # a store filled by two runs: the second run's window is that of its own delivery
+        ires = sl.run_impl(case["script"], case["batch"], case["buffer"], True)
+        second = next(step[1] for step in case["script"][3:] if step[0] == "ingest")
+        want = oracle(traces, case["buffer"], case["events"], second)
+        bad = judge(want, ires[4])
+        print(bad or "ok", "\nselected:", ires[4])
+        return 1 if bad else 0
     ires = sl.run_impl(case["script"], case["batch"], case["buffer"], False)
     want = oracle(traces, case["buffer"], case["events"])
     bad = judge(want, ires[1]) or judge(want, ires[5])
